@@ -135,6 +135,7 @@ def shard_fn(shard, nshards, seed, tier, exe, ninputs):
             sh.count("partitions_vacuous_after_non_continue", f.get("vac", 0))
             sh.count("chunk_boundaries_reached_with_continue", f.get("bcont", 0))
             sh.count("partitions_whose_last_piece_was_passed_as_a_C_string_with_len_minus_1", f.get("strlenlast", 0))
+            sh.count("empty_pieces_passed_as_NULL_pointer_with_length_0", f.get("nullempty", 0))
             sh.count("stream_values", f.get("vals", 0))
             sh.count("inputs." + kind)
             if f.get("live", 0) != 0:
